@@ -12,7 +12,7 @@ RULE = (
 )
 ASSUMPTIONS = ["the order of edge statements among themselves is not part of the statement and is not checked",
                "known finding dot-edge-to-stopped-child is accepted only when the surplus edges are exactly the predicted ones"]
-GATES = ["mon.C12.export", "C12.edges_checked", "C12.maxlevel0", "C12.stop_and_filter", "C12.colliding_names", "C12.hostile_names", "C12.custom", "C12.to_dotfile", "C12.rendertreegraph", "C12.predicate_change", "C12.value_semantics_nodes"]
+GATES = ["mon.C12.export", "C12.edges_checked", "C12.maxlevel0", "C12.stop_and_filter", "C12.colliding_names", "C12.hostile_names", "C12.custom", "C12.to_dotfile", "C12.rendertreegraph", "C12.predicate_change", "C12.value_semantics_nodes", "C12.attribute_reassigned", "C12.tree_changed_between_iterations", "C12.aborted_iteration_then_reuse"]
 
 
 def plan(tier, seed, jobs):
@@ -65,7 +65,7 @@ def run(ctx):
         names = G.hostile_names(rng, n, collide)
         if len(set(names)) < n:
             ctx.count("C12.colliding_names")
-        if any(c in x for x in names for c in '"\\'):
+        if any(c in str(x) for x in names for c in '"\\'):
             ctx.count("C12.hostile_names")
         valsem = rng.random() < 0.3
         if valsem:
@@ -74,6 +74,9 @@ def run(ctx):
         idmap = {id(o): i for i, o in enumerate(nodes)}
         case = {"par": list(par), "names": names, "value_semantics": valsem}
         for q in range(6):
+            # fresh objects per query: the second iteration of a check may rename and move nodes
+            nodes = G.build(par, names, valsem)
+            idmap = {id(o): i for i, o in enumerate(nodes)}
             s = rng.choice([0, 0, rng.randrange(n)])
             stop = frozenset(x for x in range(n) if rng.random() < rng.choice([0, 0.15, 0.3]))
             hidden = frozenset(x for x in range(n) if rng.random() < rng.choice([0, 0.2, 0.5]))
@@ -87,13 +90,14 @@ def run(ctx):
             ctx.case((kind, par, tuple(names), s, stop, hidden, ml, repr(custom)), sample=dict(case, exporter=kind, start=s, stop=sorted(stop), hidden=sorted(hidden), maxlevel=ml, custom=custom) if r % 150 == 0 and q == 0 else None)
             phase2 = None
             if q % 2:
-                phase2 = (frozenset(x for x in range(n) if rng.random() < 0.2), frozenset(x for x in range(n) if rng.random() < 0.3))
+                phase2 = G.random_phase2(rng, n, par, s)
             G.check_dot(ctx, "C12", kind, lib, nodes, idmap, names, par, ch, s, stop, hidden, ml, custom, case, known, phase2=phase2)
         # legacy class emits the same lines as DotExporter for the same arguments
         import warnings
         from anytree.exporter import DotExporter
         import anytree.dotexport
 
+        nodes = G.build(par, names, valsem)
         with warnings.catch_warnings():
             warnings.simplefilter("ignore")
             a = list(anytree.dotexport.RenderTreeGraph(nodes[0], maxlevel=3, indent=1, options=["x;"]))
@@ -115,4 +119,4 @@ def replay(ctx, wit):
     ph = c.get("phase2")
     G.check_dot(ctx, "C12", c.get("exporter", "dot"), lib, nodes, idmap, names, par, gen.children_of(par), c.get("start", 0), frozenset(c.get("stop", [])),
                 frozenset(c.get("hidden", [])), c.get("maxlevel"), c.get("custom"), {"par": par, "names": names}, set(ctx.spec.get("known") or []),
-                phase2=(frozenset(ph[0]), frozenset(ph[1])) if ph else None)
+                phase2=ph)
